@@ -55,7 +55,7 @@ impl Script {
 }
 // fn extract_raw_data (storage.rs, slice concat of code_hash / hash_type / args): assumed
 #[verifier::external_body]
-pub fn extract_raw_data(script: &Script) -> (r: Vec<u8>) ensures r@ == script.s_raw() { unimplemented!() }
+pub fn extract_raw_data(script: &Script) -> (r: Vec<u8>) ensures r@ == script.s_raw(), r@.len() <= 0xffff_ffff { unimplemented!() }
 
 #[verifier::external_body]
 pub struct ScriptOpt { b: Vec<u8> }
@@ -245,7 +245,69 @@ impl Batch {
         requires commit_ok(self.ops)
         ensures r is Ok { unimplemented!() }
 }
-pub struct Storage { pub x: u8 }
+// rocksdb::DB seen as one snapshot; iterator(mode) yields the entries from the start key in key order (reverse: downwards)
+pub enum Direction { Forward, Reverse }
+pub enum IteratorMode<'a> { Start, End, From(&'a [u8], Direction) }
+pub struct Db { pub x: u8 }
+pub struct DbIter { pub ghost items: Seq<(Vec<u8>, Vec<u8>)>, pub x: u8 }
+impl Db {
+    pub uninterp spec fn s_scan(&self, from: Seq<u8>, rev: bool) -> Seq<(Vec<u8>, Vec<u8>)>;
+    #[verifier::external_body]
+    pub fn db_iterator(&self, mode: IteratorMode) -> (r: DbIter)
+        ensures mode matches IteratorMode::From(k, d) ==> r.items == self.s_scan(k@, d is Reverse) { unimplemented!() }
+}
+// `it.take_while(f1)` / `it.take_while(f1).filter(f2)` collected (the loop that consumes them is a plain for loop after R16):
+// ASSUMED std semantics, stated through an uninterpreted function of the two predicates; what a particular scan yields is
+// stated by the ax_* scan axioms in the unit (key order of RocksDB = lexicographic byte order).
+// The keys / values are Box<[u8]> in the real code and Vec<u8> here (same operations used: len, starts_with, index, slice).
+pub uninterp spec fn tw_filter(items: Seq<(Vec<u8>, Vec<u8>)>, p1: spec_fn((Vec<u8>, Vec<u8>)) -> bool, p2: spec_fn((Vec<u8>, Vec<u8>)) -> bool) -> Seq<(Vec<u8>, Vec<u8>)>;
+#[verifier::external_body]
+pub fn vf_db_tw_filter<F1: Fn(&(Vec<u8>, Vec<u8>)) -> bool, F2: Fn(&(Vec<u8>, Vec<u8>)) -> bool>(it: DbIter, f1: F1, f2: F2) -> (r: Vec<(Vec<u8>, Vec<u8>)>)
+    requires
+        forall|e: (Vec<u8>, Vec<u8>)| call_requires(f1, (&e,)),
+        forall|e: (Vec<u8>, Vec<u8>)| call_requires(f2, (&e,)),
+    ensures
+        exists|p1: spec_fn((Vec<u8>, Vec<u8>)) -> bool, p2: spec_fn((Vec<u8>, Vec<u8>)) -> bool|
+            r@ == #[trigger] tw_filter(it.items, p1, p2)
+            && (forall|e: (Vec<u8>, Vec<u8>)| #[trigger] p1(e) == call_ensures(f1, (&e,), true))
+            && (forall|e: (Vec<u8>, Vec<u8>)| #[trigger] p2(e) == call_ensures(f2, (&e,), true)),
+{ unimplemented!() }
+#[verifier::external_body]
+pub fn vf_db_tw<F1: Fn(&(Vec<u8>, Vec<u8>)) -> bool>(it: DbIter, f1: F1) -> (r: Vec<(Vec<u8>, Vec<u8>)>)
+    requires
+        forall|e: (Vec<u8>, Vec<u8>)| call_requires(f1, (&e,)),
+    ensures
+        exists|p1: spec_fn((Vec<u8>, Vec<u8>)) -> bool, p2: spec_fn((Vec<u8>, Vec<u8>)) -> bool|
+            r@ == #[trigger] tw_filter(it.items, p1, p2)
+            && (forall|e: (Vec<u8>, Vec<u8>)| #[trigger] p1(e) == call_ensures(f1, (&e,), true))
+            && (forall|e: (Vec<u8>, Vec<u8>)| #[trigger] p2(e)),
+{ unimplemented!() }
+// [u8]::to_vec (assumed)
+pub assume_specification<T: Clone>[ <[T]>::to_vec ](s: &[T]) -> (r: Vec<T>)
+    ensures r@.len() == s@.len(), forall|i: int| 0 <= i < s@.len() ==> vstd::pervasive::cloned::<T>(#[trigger] s@[i], r@[i]);
+// [u8]::starts_with
+#[verifier::external_body]
+pub fn vf_starts_with(a: &[u8], prefix: &[u8]) -> (r: bool)
+    ensures r == (prefix@.len() <= a@.len() && a@.subrange(0, prefix@.len() as int) == prefix@) { unimplemented!() }
+// T::from_be_bytes(SLICE.try_into().expect(..)) (R18): panics unless the slice has exactly the integer's width
+pub trait VfFromBytes: Sized {
+    spec fn width() -> int;
+    spec fn be_inv(s: Seq<u8>) -> Self;
+    fn vf_from_be_slice(s: &[u8]) -> (r: Self) requires s@.len() == Self::width() ensures r == Self::be_inv(s@);
+}
+impl VfFromBytes for u64 {
+    open spec fn width() -> int { 8 }
+    open spec fn be_inv(s: Seq<u8>) -> u64 { be64_inv(s) }
+    #[verifier::external_body]
+    fn vf_from_be_slice(s: &[u8]) -> (r: u64) { unimplemented!() }
+}
+impl VfFromBytes for u32 {
+    open spec fn width() -> int { 4 }
+    open spec fn be_inv(s: Seq<u8>) -> u32 { be32_inv(s) }
+    #[verifier::external_body]
+    fn vf_from_be_slice(s: &[u8]) -> (r: u32) { unimplemented!() }
+}
+pub struct Storage { pub db: Db, pub x: u8 }
 impl Storage {
     // the snapshot read during this call
     pub uninterp spec fn s_scripts(&self) -> Seq<ScriptStatus>;                                   // FILTER_SCRIPTS entries, key order
